@@ -678,7 +678,8 @@ func (g *G1) pathExpr(d int) string {
 		case 1:
 			return paren("label $pl | (" + g.pathExpr(d-1) + ", break $pl, " + g.pathExpr(d-1) + ")")
 		case 2:
-			return paren("try " + paren(g.pathExpr(d-1)) + " catch " + g.oneOf(".", "empty", g.pathAtom()))
+			// the catch body receives the error message, which is not a location of the input: it yields nothing here
+			return paren("try " + paren(g.pathExpr(d-1)) + " catch empty")
 		default:
 			return paren("def pf(p): p | " + g.pathExpr(d-1) + "; pf(" + g.pathExpr(d-1) + ")")
 		}
